@@ -305,8 +305,10 @@ def array_binop(op, a, b, lineno=None):
                     r = z3.If(I(i) == j, I(vals[j]), r)
                 return r
             return SArr.fresh(n, at, "int")
-    u8 = getattr(a, "dtype", None) == "uint8" or getattr(b, "dtype", None) == "uint8"
-    if u8 and op in ("Add", "Sub", "Mult") and all(is_arr(x) or isinstance(x, int) for x in (a, b)):
+    # NumPy (NEP 50): the result stays uint8 - and wraps - only when EVERY array operand is uint8 and the scalars are Python ints;
+    # a uint8 array combined with an int64 array (the default for untagged arrays) is computed in int64
+    u8 = any(getattr(x, "dtype", None) == "uint8" for x in (a, b)) and all((getattr(x, "dtype", None) == "uint8") if is_arr(x) else isinstance(x, int) for x in (a, b))
+    if u8 and op in ("Add", "Sub", "Mult"):
         # NumPy (NEP 50): uint8 array op python-int / uint8 array stays uint8 and wraps modulo 256
         use("uint8 array arithmetic wraps modulo 256")
         r = elementwise(lambda x, y: _divmod_noassert(scalar_binop(op, x, y, lineno), 256)[1], a, b, "int", lineno)
